@@ -2,6 +2,7 @@
 //! Code: mahf::problems::individual::Individual::{new,new_unevaluated,evaluate_with,set_objective,solution,solution_mut,into_solution,is_evaluated,get_objective,objective,clone,clone_from,eq}
 //! Code: mahf::population::{AsSolutionsMut,IntoSolutions,IntoIndividuals,IntoSingle,IntoSingleRef,BestIndividual}, mahf::state::common::BestIndividual::update
 //! Out: the per-component preservation step for components with Vec encodings through a State (class S; covered where tractable by the driver harnesses of C11/C12/C13/C14 and the component harnesses of C06/C07/C17); composition over whole runs is an induction over C03, not a solver query
+//! Reclimit: mahf::state::(registry::)?StateRegistry::<.*>::find(_mut)?::<.*>=2
 //! Assume: objective function = symbolic table of 4 legal values over (solution & 3); set_objective is only called with f(solution) (its documented contract); one arbitrary public-API operation from an arbitrary consistent individual (inductive step)
 use mahf::population::{AsSolutionsMut, BestIndividual as BestOf, IntoIndividuals, IntoSingle, IntoSingleRef, IntoSolutions};
 use mahf::state::common::BestIndividual;
@@ -194,4 +195,63 @@ pub fn h_c05_best_memory_consistent() {
         None => assert!(false, "the memory is filled after an update"),
     }
     vcover!(true, "reached");
+}
+
+// ---- layer 2 (thorough): a shipped driver over Vec-encoded individuals preserves the invariant ------------
+
+#[cfg(kani)]
+fn from_pair_model<T>(ts: [T; 2], both: bool) -> mahf::components::recombination::OptionalPair<T> {
+    use mahf::components::recombination::OptionalPair;
+    if both {
+        OptionalPair::Both(ts)
+    } else {
+        let mut it = IntoIterator::into_iter(ts);
+        match it.next() {
+            Some(t) => OptionalPair::Single(t),
+            None => unreachable!(),
+        }
+    }
+}
+
+/// Recombination of an odd population with insert_both = false and pc = 1: whatever the driver
+/// does with the objective values of recombined or passed-through individuals, none of them may
+/// report a value that does not belong to its solution (f = table over the single bit).
+/// @h tier=thorough bound="UniformCrossover(pc = 1, insert one) on 3 evaluated one-bit individuals; objective table symbolic" unwind=8 cost=9 mem=40 timeout=3600
+#[cfg_attr(kani, kani::proof)]
+#[cfg_attr(kani, kani::unwind(8))]
+#[cfg_attr(kani, kani::stub(mahf::components::recombination::OptionalPair::from_pair, from_pair_model))]
+pub fn h_c05_recombination_driver_3() {
+    use mahf::components::recombination::UniformCrossover;
+    use mahf::components::Component;
+    use mahf::state::common::Populations;
+    use mahf::State;
+    use crate::problems::BitP;
+    let t = [sym::legal_f64(), sym::legal_f64()];
+    let fb = |b: bool| if b { t[1] } else { t[0] };
+    let bits = [sym::bool(), sym::bool(), sym::bool()];
+    let mut pops = Populations::<BitP>::new();
+    pops.push(vec![
+        Individual::new(vec![bits[0]], obj(fb(bits[0]))),
+        Individual::new(vec![bits[1]], obj(fb(bits[1]))),
+        Individual::new(vec![bits[2]], obj(fb(bits[2]))),
+    ]);
+    let mut s: State<BitP> = State::new();
+    s.insert(crate::rng::sym_random(6));
+    s.insert(pops);
+    let r = Component::<BitP>::execute(&UniformCrossover::from_params(1.0, false), &BitP(1), &mut s);
+    assert!(r.is_ok(), "recombination succeeds");
+    {
+        let p = s.populations();
+        let cur = p.current();
+        assert!(cur.len() == 2, "one child for the pair plus the unpaired individual");
+        let mut i = 0;
+        while i < cur.len() {
+            if let Some(o) = cur[i].get_objective() {
+                assert!(cur[i].solution().len() == 1 && o.value().to_bits() == fb(cur[i].solution()[0]).to_bits(), "an evaluated individual carries the value the objective function assigns to ITS solution");
+            }
+            i += 1;
+        }
+    }
+    vcover!(true, "reached");
+    std::mem::forget(s);
 }
